@@ -24,8 +24,15 @@ def _calls(node):
 
 
 def _cls(pm):
+    """class node and its methods, private helpers (`_x`) inlined one level into the mutators that call them"""
+    from ..astutil import inline_helpers
     rel, c = pm.find_function(LL, "ListLinkedToModelingObj")
-    return rel, c, {f.name: f for f in c.body if isinstance(f, ast.FunctionDef)}
+    raw = {f.name: f for f in c.body if isinstance(f, ast.FunctionDef)}
+    helpers = {n: f for n, f in raw.items() if n.startswith("_") and not n.startswith("__")}
+    ms = {}
+    for n, f in raw.items():
+        ms[n] = inline_helpers(f, lambda name: helpers.get(name)) if helpers and n not in helpers else f
+    return rel, c, ms
 
 
 def _order_sensitive_anchor(pm):
